@@ -85,6 +85,11 @@ pub fn run_hist(prop: &str, seed: u64, index: usize, _tier: Tier) -> RunReport {
     let (case, d) = if prop == "C17" {
         // keep issuing calls after a roll-over that failed because a foreign entry occupies the next WAL name
         crate::gen::generate_opts(seed, profile, buggify, n_foreign, true, true)
+    } else if prop == "C01" {
+        // C01 speaks of the state the log *shows* before it is dropped: the driver does not stop where a live call
+        // departs from the reference model (that is C05's business); the model is re-based on what the log shows and
+        // the next clean restart has to reproduce exactly that
+        crate::gen::generate_with(seed, profile, buggify, n_foreign, true)
     } else {
         generate(seed, profile, buggify, n_foreign)
     };
